@@ -132,7 +132,7 @@ def run_case(op: str, args: list, stdout_encoding: str = "utf-8") -> str:
     if op == "build":
         a = list(args)
     else:
-        a = [materialize(x) if not (op == "key" and x is args[0]) else x for x in args]
+        a = [materialize(x) if not (op in ("key", "gpg") and x is args[0]) else x for x in args]
     with quiet_stdout(stdout_encoding):
         return _run(op, a)
 
@@ -177,6 +177,38 @@ def _run(op: str, a: list) -> str:
         except Exception as e:  # noqa: BLE001
             return "E " + classify(e)
         return "V " + proto.enc(a[0])
+    if op == "gpg":
+        # the library's GPG signing path with the signer's outputs fixed by the case: gpg <fn> <sslib> <other_headers> <signature> <q> <args...>
+        fn_, sslib, oh, sg, q = a[:5]
+        rest = a[5:]
+        gpgshim.CANNED = (oh, sg, q)
+        old = root_signing.SSLIB_AVAILABLE
+        root_signing.SSLIB_AVAILABLE = bool(sslib)
+        try:
+            if fn_ == "dict":
+                r = root_signing.sign_root_metadata_dict_via_gpg(rest[0], rest[1])
+                return "V " + proto.enc(r)
+            if fn_ == "file":
+                path = os.path.join(scratch_dir(), "gpgfile.json")
+                if rest[0] is None:
+                    if os.path.exists(path):
+                        os.unlink(path)
+                else:
+                    with open(path, "wb") as f:
+                        f.write(rest[0])
+                root_signing.sign_root_metadata_via_gpg(path, rest[1])
+                with open(path, "rb") as f:
+                    return "B " + f.read().hex()
+            if fn_ == "via":
+                return "V " + proto.enc(root_signing.sign_via_gpg(rest[0], rest[1], rest[2]))
+            if fn_ == "fetch":
+                return "V " + proto.enc(root_signing.fetch_keyval_from_gpg(rest[0]))
+            return "X bad-fn"
+        except Exception as e:  # noqa: BLE001
+            return "E " + classify(e)
+        finally:
+            gpgshim.CANNED = None
+            root_signing.SSLIB_AVAILABLE = old
     if op == "signrepofile":
         fn = os.path.join(scratch_dir(), "repodata.json")
         from . import gen as _gen, jsontext as _jt
@@ -255,6 +287,15 @@ def enc_case(op: str, args: list) -> str:
         return "parse " + bytes(args[0]).hex()
     if op == "key":
         return f"key {args[0]} " + " ".join(proto.enc(x) for x in args[1:])
+    if op == "gpg":
+        fn_, sslib, oh, sg, q = args[:5]
+        rest = list(args[5:])
+        head = f"gpg {fn_} {'t' if sslib else 'f'} {proto.enc(oh)} {proto.enc(sg)} {proto.enc(q)}"
+        if fn_ == "file":
+            return head + " " + ("-" if rest[0] is None else "x" + bytes(rest[0]).hex()) + " " + proto.enc(rest[1])
+        if fn_ == "via":
+            return head + " " + proto.enc(rest[0]) + " " + proto.enc(rest[1]) + " " + ("t" if rest[2] else "f")
+        return head + " " + " ".join(proto.enc(x) for x in rest)
     if op == "signrepofile":
         return " ".join([op] + [proto.enc(x) for x in args[:2]])      # args[2] (layout of the input file) is not part of the value
     if op == "build":
